@@ -76,8 +76,42 @@ def build_self(cls, fields):
     return o
 
 
+def alias_replay(rep):
+    """frame.no-aliasing: run the real method on an object whose declared fields are separate
+    objects and look for two attributes that hold one and the same mutable container afterwards"""
+    import collections
+    import inspect
+    mod, cls, fn = resolve(rep["target"])
+    NS.update(vars(mod))
+    inputs = rep.get("inputs") or {}
+    if not isinstance(inputs, dict) or "__error__" in inputs:
+        inputs = {}
+    selfv = inputs.get("self") or {}
+    selfobj = build_self(cls, selfv.get("fields", {}) if isinstance(selfv, dict) else {})
+    f = fn.__func__ if isinstance(fn, (staticmethod, classmethod)) else fn
+    if not inspect.isfunction(f) and hasattr(f, "method"):
+        f = f.method
+    sig = inspect.signature(f)
+    args = {k: decode(v) for k, v in inputs.items() if k in sig.parameters and k != "self"}
+    try:
+        f(selfobj, **args)
+    except BaseException as e:   # noqa
+        print(f"raised {type(e).__name__}: {e}")
+    seen = {}
+    shared = []
+    for k, v in sorted(vars(selfobj).items()):
+        if isinstance(v, (list, dict, set, collections.deque)):
+            if id(v) in seen:
+                shared.append((seen[id(v)], k))
+            seen.setdefault(id(v), k)
+    print(f"called {rep['target']}; attributes holding one and the same mutable object afterwards: {shared}")
+    print("REPRODUCED" if shared else "NOT-REPRODUCED")
+
+
 def main(path):
     rep = json.load(open(path))
+    if rep.get("kind") == "frame" and str(rep.get("obligation", "")).split("__")[0].endswith(".frame.no-aliasing"):
+        return alias_replay(rep)
     spec = rep.get("replay_spec") or {}
     if spec.get("driver"):
         modname, fn = spec["driver"].split(":")
